@@ -450,15 +450,7 @@ static void mode_rt(int lo, int hi, int step, int matrix)
 					mism(kh2, l, "hijri %d-%d-%d -> %s want %04d-%02d-%02d", r[F_HY], r[F_HM], r[F_HD], got, r[F_Y], r[F_M], r[F_D]);
 				}
 			}
-			if (ROW(l + 1)[F_HY]) {
-				const int32_t *r2 = ROW(l + 1);
-				ev(kh3);
-				struct dt_d_s st = dt_dadd_d(hv, 1);
-				if ((int)st.ummulqura.y != r2[F_HY] || (int)st.ummulqura.m != r2[F_HM] || (int)st.ummulqura.d != r2[F_HD]) {
-					mism(kh3, l, "hijri %d-%d-%d +1d = %u-%u-%u want %d-%d-%d", r[F_HY], r[F_HM], r[F_HD], st.ummulqura.y,
-					     st.ummulqura.m, st.ummulqura.d, r2[F_HY], r2[F_HM], r2[F_HD]);
-				}
-			}
+			(void)kh3;
 		}
 	}
 }
